@@ -37,7 +37,7 @@ CHOICES_ALIAS = {"label": ["caption"], "name": ["value"], "list_name": ["list na
 SETTINGS_ALIAS = {"form_id": ["id_string", "set_form_id"], "form_title": ["title", "set_form_title"]}
 KNOWN_SURVEY = set(SURVEY_ALIAS) | {"hint", "guidance_hint", "default", "trigger", "choice_filter", "parameters", "required", "constraint", "intent"}  # ("disabled" is not part of the spec: its header is matched literally)
 TYPE_ALIAS = {"select_one": ["select one", "select1"], "select_multiple": ["select all that apply"], "integer": ["int"], "image": ["photo"],
-              "begin group": ["begin_group"], "end group": ["end_group"], "begin repeat": ["begin_repeat"], "end repeat": ["end_repeat"],
+              "begin group": ["begin_group"], "end group": ["end_group"], "begin repeat": ["begin_repeat", "begin looped group", "begin lgroup", "begin_lgroup"], "end repeat": ["end_repeat", "end looped group", "end lgroup", "end_looped group"],
               "select_one_from_file": ["select one from file"], "select_multiple_from_file": ["select multiple from file"]}
 TRUE = ["yes", "Yes", "YES", "true", "True", "TRUE", "true()"]
 FALSE = ["no", "No", "NO", "false", "False", "FALSE", "false()"]
@@ -50,7 +50,7 @@ KINDS = ["header-case", "alias", "single-colon", "type-alias", "truth", "quotes"
 @st.composite
 def _cases(draw):
     prof = dict(gen.PROFILES["broad"], p_table_list=0.08, p_or_other=0.1, p_meta=0.1, p_params=0.5, p_choice_nolabel=0.05, settings="some",
-                p_extra_sheets=0.0, text_ctl=False, p_intent=0.15)
+                p_extra_sheets=0.0, text_ctl=False, p_intent=0.15, p_bool_logic=0.1)
     g = gen.G(draw, prof)
     form = gen.build_form(draw, prof, g=g)
     if g.p("_", 0.2):
@@ -128,7 +128,7 @@ def transform(wb, spec):
                     if v.endswith(" or_other") and rr.random() < 0.5:
                         v = v[: -len("or_other")] + rr.choice(["or other", "or specify other"])
                         done.add("type-alias")
-                if base in ("required", "readonly") and "truth" in kinds:
+                if base in ("required", "readonly", "relevant", "constraint", "calculation") and "truth" in kinds:
                     if v in TRUE:
                         v = rr.choice(TRUE)
                         done.add("truth")
